@@ -357,7 +357,7 @@ pub fn check_opt(case: &OptCase, st: &mut Stats) -> Result<(), String> {
                 }
                 let count = |s: &str| {
                     let mut m = std::collections::BTreeMap::new();
-                    for ch in s.chars().filter(|c| is_visible(*c) && label_of(*c).is_none() && *c != '*' && *c != '`' && *c != '\u{336}' && *c != '#' && *c != '>' && !is_border(*c)) {
+                    for ch in s.chars().filter(|c| is_visible(*c) && label_of(*c).is_none() && *c != '*' && *c != '`' && *c != '\u{336}' && *c != '#' && *c != '>' && *c != '.' && *c != '-' && !c.is_ascii_digit() && !is_border(*c)) {
                         *m.entry(ch).or_insert(0usize) += 1;
                     }
                     m
@@ -472,7 +472,8 @@ fn opt_case(g: G) -> BoxedStrategy<OptCase> {
 }
 
 pub fn property() -> Property {
-    let g = G::default();
+    // ids: a fragment marker at the start of a block must not switch an option off for that block
+    let g = G::default().with_ids();
     Property {
         id: "C15",
         level: "exploration",
